@@ -1,6 +1,103 @@
 """C18 — region extraction (convenience.extract) and capture analysis (analysis.analyze_implicit_usage) are exact.
 
-(The decision log is completed at the end of the work; see the sections below.)
+Decided by: Coq theorems (coq/theories/C18/Property.v) about the hand-written executable model
+coq/theories/C18/Model.v, tied to /repo on every run by a correspondence check (the real extract /
+analyze_implicit_usage and the model are run on the same generated graphs x cuts; the implementation's
+observations are embedded in case files and compared inside Coq with vm_compute), plus a property oracle
+(brute-force region / scope computation on the generator's own dict representation, object independence,
+onnx.reference evaluation of source vs extracted graph) that searches a concrete failing input.
+
+MODEL (Model.v)
+  node = Node id (inputs: list (option vid)) (outputs) (graphs held by GRAPH/GRAPHS attributes, in order);
+  graph = Graph id inputs initializers nodes outputs (nested inductive; Struct.v has the induction principle).
+  value.graph / producer() / is_initializer() / name are functions owner/prod/isinit/name — in the case
+  files a table *observed on the implementation* (pointer semantics, not re-derived from the structure).
+  * collect_external, node_caps  = _collect_all_external_values per GRAPH/GRAPHS attribute (set order: a
+    `shuffle` parameter; theorems hold for every order).
+  * find_step/find_loop/find_bounded = _find_subgraph_bounded_by_values as written: value stack (last
+    output on top), visited_values seeded with inputs, visited_nodes, initializers recorded when popped,
+    inputs-then-captures pushed if not visited, frontier validation over direct inputs only, KeyError from
+    node_index for a node outside the graph-like, result ordered by original index. Fuel = 1 + |outputs| +
+    sum of |inputs|+|captures| over the universe; Proofs.find_fuel_suffices proves it is never exhausted.
+  * extract = create_value_mapping (first name wins, built from function.graph for a Function), the
+    validation loop over chain(inputs, outputs) (ownership for Graph/Function, name lookup), "no outputs",
+    parent_graph = graph of the first output (AssertionError when None), find_bounded, then the
+    definedness checks of Cloner.clone_graph/clone_node on the GraphView (clone_graph/clone_node in the
+    model: value_map only grows; a missing node input / graph output -> RuntimeError via
+    _capture_error_context).
+  * analyze/process_node/process_graph/collect_ins/walk = analyze_implicit_usage with its graph stack and
+    dict (KeyError when the walk reaches a graph that is not a key, i.e. the top graph).
+
+THEOREMS (all closed under the global context, no axioms)
+  C18_walk_terminates   fuel never runs out; outcomes are Ok | ValueError | KeyError.
+  C18_exact             returned nodes = {producers of needed non-input values} (both inclusions), as a
+                        filter of the original node list (original order); C18_least / C18_reach_closed:
+                        Reach is the least closed set. C18_extract_exact: same for `extract` on a heap.
+  C18_inits             initializers = needed non-input initializers (+ listed input initializers unless
+                        the source is a Function — the code's isinstance(graph, ir.Function) branch).
+  C18_unbounded_raises  needed node reads directly a producer-less non-initializer not in inputs => ValueError;
+  C18_ok_bounded        converse for results.
+  C18_unbounded_captured_raises  same for values read only inside nested bodies: extract Ok => listed in
+                        inputs (the frontier check misses them, the cloner's check catches them).
+  C18_caps_are_captures the values pushed for a node's bodies are exactly the `captured` values of
+                        C18_captures_exact when the graph is well scoped.
+  C18_captures_exact    for every well-scoped graph (scoped_n: no graph is its own ancestor, every value
+                        read in a nested graph belongs to it or to an enclosing graph), all depths:
+                        analyze = Ok u, keys u = nested graphs, u[S] = {v | read in S or deeper, v.graph not
+                        S nor nested in S}.
+  C18_semantics_partial for every T/interp/environments: on an SSA, topologically sorted source the
+                        extracted node list computes the source's values on every needed value, assuming the
+                        start environment agrees with the source on needed inputs and producer-less values.
+                        PARTIAL: discharging that assumption from "extract returned Ok" needs C18_inits +
+                        C18_ok_bounded + C18_unbounded_captured_raises assembled at the level of `extract`
+                        (id<->node lookups, heap producer table vs node list); the three facts are proved,
+                        the assembly is not.
+  C18_independent (DESIGN) is C13's theorem; here it is checked by the oracle only (no shared Graph/Node/
+  Value object between result and source).
+
+TIE / coverage: generated graphs (numeric: Relu/Neg/Identity/Add/Mul/Clip with omitted optional inputs/If
+  with 1-2 outputs; structural: also multi-output nodes, bodies with their own inputs and initializers,
+  GRAPHS attributes with 0-3 graphs, nesting depth up to 3) x cuts (all input subsets x 1-2 outputs for
+  graphs with <= 6 top-level values on every third graph, random mostly-bounded cuts otherwise) x source
+  kind Graph / Function / GraphView (sub-lists of the nodes, own inputs/initializers) x by-object /
+  by-name / mixed references, + malformed stream (unsorted nodes, values owned by no graph, duplicate and
+  empty names, sibling-scope leaks, unknown names, values of nested graphs, no outputs) + corpus/C18.
+  Compared: Ok/Raise + exception class, node names in order, initializer names (set), input/output names;
+  analyze result as ordered list of (graph, set of values) or the exception.
+
+ORACLE readings (weaker where ambiguous): domain = well-formed sources (topologically sorted, every value
+  defined once in an enclosing scope, unique non-empty names, view nodes in source order, boundary
+  references denoting top-level values known to the source); "raises" = any exception; initializers of
+  the result must contain the needed ones and nothing but those and listed-input initializers; evaluation
+  compares bit patterns of ReferenceEvaluator outputs for two seeded feeds (numeric graphs only).
+
+FINDINGS on the unchanged tree: none (known_findings.d/C18.json is empty). Both DESIGN probes confirmed as
+  harmless: (1) a captured graph input not listed in `inputs` passes the frontier check and is rejected by
+  the cloner with RuntimeError (still raises; C18_unbounded_captured_raises, corpus 01); (2)
+  analyze_implicit_usage on a nested read of a value whose graph is None raises KeyError — outside the
+  quantifier (Example C18_captures_keyerror_outside_scope, corpus 03). Observed oddity, not a violation: when
+  an output of a multi-output node is listed in `inputs` and a sibling output is needed, the result has
+  both a graph input and a node output with that name (serialised graph is not SSA; ReferenceEvaluator
+  still computes the source's values).
+
+MODELLED NOT VERIFIED: list.sort(key=node_index) is modelled as "filter the original node list by
+  membership" (contract of sorting a duplicate-free list by position); Python set iteration order; the
+  copying part of the cloner (fresh objects, names, shapes) — only observed by the oracle; Graph
+  constructors' own checks.
+
+MUTANTS (scratch worktree /tmp/wt-C18, VERIF_REPO; all reported VIOLATION with a concrete oracle replay
+  and a broken correspondence):
+  m1 GRAPHS attribute: captures of the first graph only      caught (after raising the share of GRAPHS nodes)
+  m2 last input of a >2-input node not pushed                caught
+  m3 sort by original index replaced by reverse()            caught (a first variant using len(all_nodes)
+                                                             inside the key was a no-op: list is empty during sort)
+  m4 frontier check looks at the first two inputs only       caught (first variant, dropping `producer not in
+                                                             visited_nodes`, is an equivalent mutant — C18_ok_bounded)
+  m5 _collect_all_external_values not recursive              caught
+  m6 implicit usage walks only the two innermost graphs      caught (needs depth 3; generator deepened)
+  m7 implicit usage skips initializers                       caught
+  m8 listed input initializers not recorded                  caught
+  m9 inputs that are outputs of multi-output nodes not used as stop set   caught
 """
 
 from __future__ import annotations
@@ -945,6 +1042,8 @@ def run(ck) -> None:
                            "by-object/by-name. Non-trivial: extract returned a graph with at least one node, or the "
                            "capture analysis returned a non-empty capture set; distinct by (graph, cut).")
     ck.prove()
+    ck.notes.append("C18_semantics is proved as C18_semantics_partial (see Property.v); C18_exact, C18_inits, "
+                    "C18_unbounded_raises, C18_unbounded_captured_raises, C18_captures_exact are full strength")
 
     groups: list[dict] = []
     # 1. corpus
